@@ -51,6 +51,8 @@ Definition notif_ok (s : sx) : bool :=
    schedules.  Model: the request set and the notification set are the ones the sequential
    function computes from (view, prior). *)
 Definition run_0801 (input impl : sx) : sx :=
+  (* an optional 6th field (soft limit on open descriptors during the run) does not change the prediction *)
+  let input := match input with SL [v; pr; n; sd; ch; _] => SL [v; pr; n; sd; ch] | _ => input end in
   match input with
   | SL [v; pr; SN nsched; SN seed; SN chunk] =>
     match dec_view v, dec_view pr, sx_list dec_srec impl with
